@@ -10,5 +10,7 @@ CONSTANTS
   MaxSteps = 0
   Pows <- None
   Fault = FALSE
+  MaxUnits = 0
+  Cached = FALSE
 INVARIANT StrapB
 CHECK_DEADLOCK FALSE
